@@ -74,7 +74,8 @@ Proof.
       destruct (_ <? _); cbn; rewrite xbytes_app, app_nil_r; auto.
     - unfold recv_close. destruct (live s); cbn [negb]; [|cbn; rewrite xbytes_app, app_nil_r; auto].
       destruct (Hl s H) as [C D]. cbn [lclosed rclosed set_rclosed]. rewrite C. cbn [andb].
-      destruct (Hcc (set_rclosed true (lose s)) C) as [E F]. split; [exact E|]. rewrite F. exact D. }
+      destruct (Hcc (set_rclosed true (lose s)) C) as [E F]. split; [exact E|]. rewrite F. exact D.
+    - unfold adjust_window. rewrite H. auto. }
   destruct (IH _ A) as [C D]. split; [exact C|]. unfold run in D. rewrite D. exact B.
 Qed.
 
